@@ -193,6 +193,8 @@ def rule_twin(chk):
                 if f is None:
                     chk.violated('compiled-twin', '%sWrapper.%s' % (name, m), node=wc, file=CK, func=name + 'Wrapper', detail='missing')
                     continue
+                # helpers of the wrapper class a maintainer has factored the common lines out into are inlined again
+                f = M.inline_helpers(wc, f, keep=set(['kernel', 'gradient', '__init__']))
                 # value numbering of the straight-line body: what reaches the kernel call
                 from verif_static import symb as S
                 ok = False
@@ -207,6 +209,10 @@ def rule_twin(chk):
                         vec = compact(a[0])
                         alias = ev.env.get(vec)           # xij = self.xij: a local name for the persistent buffer
                         base = vec
+                        for a_ in ast.walk(f):
+                            tg_ = a_.targets[0] if isinstance(a_, ast.Assign) and len(a_.targets) == 1 else a_.target if isinstance(a_, ast.AnnAssign) and a_.value is not None else None
+                            if isinstance(tg_, ast.Name) and compact(a_.value) == vec:
+                                base = tg_.id            # the buffer handed to the kernel is the one the components were stored through (`xij = self.xij`)
                         comps = [ev.env.get('%s[%d]' % (base, k)) for k in range(3)]
                         want = [ctx.var(p) - ctx.var(q) for p, q in (('xi', 'xj'), ('yi', 'yj'), ('zi', 'zj'))]
                         ok = all(c is not None and ctx.prove_zero(c - w)[0] for c, w in zip(comps, want))
@@ -715,6 +721,19 @@ def pieces(fn):
             elif isinstance(s, ast.AugAssign) and isinstance(s.target, ast.Name) and s.target.id in env:
                 env = dict(env)
                 env[s.target.id] = ast.BinOp(left=env[s.target.id], op=s.op, right=subst(s.value, env))
+            elif isinstance(s, ast.If) and isinstance(s.test, ast.BoolOp):
+                # `if A and B: X else: Y` is `if A: (if B: X else: Y) else: Y`; `if A or B: X else: Y` is `if A: X else: (if B: X else: Y)` - one test per branch point
+                vals = s.test.values
+                rest_t = vals[1] if len(vals) == 2 else ast.BoolOp(op=s.test.op, values=vals[1:])
+                inner = ast.If(test=rest_t, body=s.body, orelse=s.orelse)
+                ast.copy_location(inner, s)
+                if isinstance(s.test.op, ast.And):
+                    s2 = ast.If(test=vals[0], body=[inner], orelse=s.orelse)
+                else:
+                    s2 = ast.If(test=vals[0], body=s.body, orelse=[inner])
+                ast.copy_location(s2, s)
+                walk([s2] + stmts[i + 1:], env, conds)
+                return
             elif isinstance(s, ast.If):
                 t = compact(subst(s.test, env))
                 COND_AST[t] = subst(s.test, env)
